@@ -49,6 +49,7 @@ func runC38(c *C) {
 		}
 	}
 	featWitnesses(c)
+	pairsStream(c)
 	n := c.N(700, 20000)
 	for i := 0; i < n && !c.Failed(); i++ {
 		o := genOpts{NoImports: true, NoMsgSet: true, ForModel: true}
@@ -62,10 +63,6 @@ func runC38(c *C) {
 		a := genFile(c.Rand, o, i)
 		featCase(c, a)
 	}
-	if c.Failed() {
-		return
-	}
-	pairsStream(c)
 }
 
 // ---------- oracle: nearest override else default ----------
@@ -293,6 +290,29 @@ func featCase(c *C, a *AFile) {
 				what = "extension"
 			}
 			checkStruct(what, ch, af.Packed, ef, b.name, false)
+			// public attributes vs the harness' own reading of the language guide (direct property)
+			if af.Type != 0 {
+				r, _ := resolve(ch)
+				if af.Packed != 0 {
+					r.RFE = 3 - af.Packed
+				}
+				hasMsg := b.fd.Message() != nil
+				mapish := b.fd.IsMap() || (!isExt && b.fd.ContainingMessage().IsMapEntry())
+				wantCard := af.Label
+				if r.FP == 3 && !isExt {
+					wantCard = 2
+				}
+				wantKind := af.Type
+				if wantKind == 11 && r.ME == 2 && (isExt || !mapish) {
+					wantKind = 10
+				}
+				packable := wantKind != 9 && wantKind != 12 && wantKind != 10 && wantKind != 11
+				wantPacked := wantCard == 3 && packable && r.RFE == 1
+				wantPresence := wantCard != 3 && (isExt || r.FP == 1 || r.FP == 3 || hasMsg || b.fd.ContainingOneof() != nil)
+				got := fmt.Sprintf("card=%d kind=%d presence=%v packed=%v", b.fd.Cardinality(), b.fd.Kind(), b.fd.HasPresence(), b.fd.IsPacked())
+				want := fmt.Sprintf("card=%d kind=%d presence=%v packed=%v", wantCard, wantKind, wantPresence, wantPacked)
+				chk(c, got == want, fmt.Sprintf("%s %s (%s-built): accessors %s, resolved features say %s (chain %s)", what, b.fd.FullName(), b.name, got, want, chainToken(ch)), in, "")
+			}
 			// public attributes vs the model
 			if c.HasModel() {
 				hasMsg := b.fd.Message() != nil
